@@ -152,6 +152,17 @@ inductive Flow where
   | ret (v : PyVal)
   | next (vars : List PyVal)
 
+/-- `for x in xs: <body>` followed by `<rest>`, for a body that is a FLOW fragment without carried variables (`body x = .ret v`: the
+    iteration executed `return v`; `.next [broke]`: it ended normally, or with `break` when `broke` is `True`): the first returned
+    value in iteration order, else the value of the statements after the loop. -/
+def forFlow (body : PyVal → Flow) (rest : PyVal) : List PyVal → PyVal
+  | [] => rest
+  | x :: xs =>
+    match body x with
+    | .ret v => v
+    | .next [.bool true] => rest
+    | .next _ => forFlow body rest xs
+
 /-- `d.get(k, default)` (on a non-dict CPython raises AttributeError; here the default, as `get` answers `None`) -/
 def getD (d : PyVal) (k : String) (dflt : PyVal) : PyVal :=
   match d with
